@@ -1,5 +1,6 @@
 //! Native replay of solver counterexamples against the real crate (public API only unless built with the `verif` hooks).
 //! usage: verif_replay <file.json>  -> prints one JSON object with the observations; exit 0 always unless the input is malformed.
+mod jsonrt;
 mod rope;
 mod threads;
 mod tree;
@@ -157,6 +158,8 @@ fn one(v: &Value) -> Value {
     }
     "eqhash" => tree::eqhash(v),
     "threads" => threads::run(v),
+    "json" => jsonrt::roundtrip(v),
+    "jsondoc" => jsonrt::document(v),
     _ => json!({"error": format!("unknown family {}", fam)}),
   }
 }
